@@ -19,6 +19,11 @@ func init() {
 		{Name: "buffer-sized-by-other-call", Rule: "R10.1", Where: "(*ConnAck).WriteTo", Edits: []Edit{{"connack.go", "\tb := make([]byte, p.fill(_LEN, 0))\n\tp.fill(b, 0)\n\tn, err := w.Write(b)", "\tb := make([]byte, p.variableHeader(_LEN, 0)+2)\n\tp.fill(b, 0)\n\tn, err := w.Write(b)"}}},
 		{Name: "emission-width-not-added", Rule: "R10.2", Where: "(*ConnAck).variableHeader", Edits: []Edit{{"connack.go", "\ti += p.reasonCode.fill(b, i)\n\ti += vbint(p.properties(_LEN, 0)).fill(b, i) // Properties len", "\tp.reasonCode.fill(b, i)\n\ti += vbint(p.properties(_LEN, 0)).fill(b, i) // Properties len"}}},
 		{Name: "emission-at-stale-offset", Rule: "R10.2", Where: "(*Auth).properties", Edits: []Edit{{"auth.go", "\ti += p.authData.fillProp(b, i, AuthData)", "\ti += p.authData.fillProp(b, n, AuthData)"}}},
+		{Name: "string-size-computed-in-a-shared-helper", Rule: "R10.4", Where: "(*PubAck).String", Edits: []Edit{{"puback.go", "\treturn withReason(p, fmt.Sprintf(\"%s p%v %v bytes\",\n\t\tfirstByte(p.fixed).String(),\n\t\tp.packetID,\n\t\tp.width(),\n\t))\n}", "\treturn withReason(p, ackString(p.fixed, p.packetID, p.variableHeader(_LEN, 0)))\n}\n\nfunc ackString(fixed bits, id wuint16, remaining int) string {\n\treturn fmt.Sprintf(\"%s p%v %v bytes\", firstByte(fixed).String(), id, 2+remaining)\n}"}}},
+		{Name: "string-size-passed-to-a-helper-unchanged", Silent: true, Edits: []Edit{{"puback.go", "\treturn withReason(p, fmt.Sprintf(\"%s p%v %v bytes\",\n\t\tfirstByte(p.fixed).String(),\n\t\tp.packetID,\n\t\tp.width(),\n\t))\n}", "\treturn withReason(p, ackString(p.fixed, p.packetID, p.width()))\n}\n\nfunc ackString(fixed bits, id wuint16, size int) string {\n\treturn fmt.Sprintf(\"%s p%v %v bytes\", firstByte(fixed).String(), id, size)\n}"}}},
+		{Name: "remaining-length-helper-counts-packet-id-for-qos3", Rule: "R10.7", Where: "Publish", Edits: []Edit{
+			{"publish.go", "\tremainingLen := vbint(p.variableHeader(_LEN, 0))\n\n\tif len(p.payload) > 0 {\n\t\tremainingLen += vbint(p.payload.fill(_LEN, 0))\n\t}\n", "\tremainingLen := p.remainingLen()\n"},
+			{"publish.go", "func (p *Publish) variableHeader(b []byte, i int) int {", "func (p *Publish) remainingLen() vbint {\n\tpropl := p.properties(_LEN, 0)\n\tn := p.topicName.width()\n\tif p.QoS() > 0 {\n\t\tn += p.packetID.width()\n\t}\n\tn += vbint(propl).width() + propl\n\tn += p.payload.width()\n\treturn vbint(n)\n}\n\nfunc (p *Publish) variableHeader(b []byte, i int) int {"}}},
 		{Name: "string-prints-other-size", Rule: "R10.4", Where: "(*SubAck).String", Edits: []Edit{{"suback.go", "\t\tfirstByte(p.fixed).String(),\n\t\tp.packetID,\n\t\tp.width(),\n\t)\n}\n\nfunc (p *SubAck) dump", "\t\tfirstByte(p.fixed).String(),\n\t\tp.packetID,\n\t\tp.variableHeader(_LEN, 0),\n\t)\n}\n\nfunc (p *SubAck) dump"}}},
 		{Name: "undefined-writes-first", Rule: "R10.5", Where: "(*Undefined).WriteTo", Edits: []Edit{{"undefined.go", "\treturn 0, fmt.Errorf(\"cannot write %T\", p)", "\tw.Write(p.data)\n\treturn 0, fmt.Errorf(\"cannot write %T\", p)"}}},
 		{Name: "undefined-returns-nil", Rule: "R10.5", Where: "(*Undefined).WriteTo", Edits: []Edit{{"undefined.go", "\treturn 0, fmt.Errorf(\"cannot write %T\", p)", "\treturn 0, nil"}}},
@@ -876,62 +881,136 @@ func checkDryEqualsReal(p *Prog, c *Check, fn *ssa.Function, buf, off *ssa.Param
 // R10.4
 func checkStringSize(p *Prog, c *Check, fn *ssa.Function, fill *ssa.Function) {
 	cons := qname(fn)
-	// find the fmt call whose constant format contains "bytes"
-	found := false
+	prints := sizePrintsOf(p, fn, 0, map[*ssa.Function]bool{})
+	for _, sp := range prints {
+		switch {
+		case sp.why != "":
+			c.Bad("R10.4", cons, sp.pos, "the size printed before \"bytes\" is not the frame's dry-run size: "+sp.why)
+		case sp.f == fill && isRecvOf(p, fn, sp.recv):
+			c.OK("R10.4", cons, sp.pos, "prints the dry-run size "+qname(sp.f)+"(nil-slice, 0) of the receiver"+sp.via)
+		default:
+			c.Bad("R10.4", cons, sp.pos, "the size printed before \"bytes\" is the dry run of another function or another packet than the receiver's own encoder"+sp.via)
+		}
+	}
+	if len(prints) == 0 {
+		c.OK("R10.4", cons, p.Pos(fn.Pos()), "prints no size (nothing to compare), neither itself nor in the mq functions it calls")
+	}
+}
+
+// sizePrint: one fmt call (in fn or in an mq function fn calls, directly or through helpers) whose constant
+// format prints an operand right before " bytes".  f/recv: the dry-run call that operand is, with the receiver
+// expressed in fn's own values; why: set when the operand is something else.
+type sizePrint struct {
+	pos  string
+	f    *ssa.Function
+	recv ssa.Value
+	why  string
+	via  string
+}
+
+func sizePrintsOf(p *Prog, fn *ssa.Function, depth int, seen map[*ssa.Function]bool) []sizePrint {
+	if fn == nil || fn.Blocks == nil || depth > 3 || seen[fn] {
+		return nil
+	}
+	seen[fn] = true
+	defer delete(seen, fn)
+	var out []sizePrint
 	for _, b := range fn.Blocks {
 		for _, ins := range b.Instrs {
 			call, ok := ins.(*ssa.Call)
 			if !ok {
 				continue
 			}
-			fc := AsFmtCall(call)
-			if fc == nil || !fc.ConstF || !strings.Contains(fc.Format, "bytes") {
-				continue
-			}
-			// the operand printed right before " bytes"
-			idx := -1
-			pos := 0
-			n := 0
-			for i := 0; i < len(fc.Format); i++ {
-				if fc.Format[i] != '%' {
+			if fc := AsFmtCall(call); fc != nil {
+				if !fc.ConstF || !strings.Contains(fc.Format, "bytes") {
 					continue
 				}
-				j := i + 1
-				for j < len(fc.Format) && strings.IndexByte("+-# 0123456789.", fc.Format[j]) >= 0 {
-					j++
-				}
-				if j < len(fc.Format) && fc.Format[j] == '%' {
+				// the operand printed right before " bytes"
+				idx := -1
+				n := 0
+				for i := 0; i < len(fc.Format); i++ {
+					if fc.Format[i] != '%' {
+						continue
+					}
+					j := i + 1
+					for j < len(fc.Format) && strings.IndexByte("+-# 0123456789.", fc.Format[j]) >= 0 {
+						j++
+					}
+					if j < len(fc.Format) && fc.Format[j] == '%' {
+						i = j
+						continue
+					}
+					if strings.HasPrefix(fc.Format[j+1:], " bytes") {
+						idx = n
+					}
+					n++
 					i = j
+				}
+				if idx < 0 || idx >= len(fc.Args) {
 					continue
 				}
-				if strings.HasPrefix(fc.Format[j+1:], " bytes") {
-					idx = n
-					pos = j
+				arg := fc.Args[idx]
+				if mi, ok := arg.(*ssa.MakeInterface); ok {
+					arg = mi.X
 				}
-				n++
-				i = j
-			}
-			_ = pos
-			if idx < 0 || idx >= len(fc.Args) {
+				sp := sizePrint{pos: posOf(p, call)}
+				if f, recv, ok := p.dryRunCall(arg, 0); ok {
+					sp.f, sp.recv = f, recv
+				} else if prm, isP := stripConvs(arg).(*ssa.Parameter); isP {
+					sp.recv = prm // a size handed in by the caller: resolved at the call site
+				} else {
+					sp.why = describeVal(arg)
+				}
+				out = append(out, sp)
 				continue
 			}
-			found = true
-			arg := fc.Args[idx]
-			if mi, ok := arg.(*ssa.MakeInterface); ok {
-				arg = mi.X
+			sc := call.Call.StaticCallee()
+			if sc == nil || sc.Blocks == nil || sc.Pkg != fn.Pkg || isFillFamily(sc) {
+				continue
 			}
-			f, recv, ok := p.dryRunCall(arg, 0)
-			switch {
-			case ok && f == fill && isRecvOf(p, fn, recv):
-				c.OK("R10.4", cons, posOf(p, call), "prints the dry-run size "+qname(f)+"(nil-slice, 0) of the receiver")
-			default:
-				c.Bad("R10.4", cons, posOf(p, call), "the size printed before \"bytes\" is not the frame's dry-run size: "+describeVal(arg))
+			for _, sp := range sizePrintsOf(p, sc, depth+1, seen) {
+				sp.via = " (printed by " + qname(sc) + " at " + sp.pos + ")"
+				sp.pos = posOf(p, call)
+				if sp.why == "" {
+					// express the callee's value in this function's terms
+					prm, isP := sp.recv.(*ssa.Parameter)
+					k := -1
+					if isP {
+						for i, q := range sc.Params {
+							if q == prm {
+								k = i
+							}
+						}
+					}
+					switch {
+					case k < 0 || k >= len(call.Call.Args):
+						sp.why = "the helper " + qname(sc) + " prints a size that is not a function of what it is given"
+					case sp.f != nil:
+						sp.recv = call.Call.Args[k] // the receiver of the dry run is the callee's parameter k
+					default:
+						// the size itself is parameter k: it must be a dry-run call here
+						a := call.Call.Args[k]
+						if f, recv, ok := p.dryRunCall(stripConvs(a), 0); ok {
+							sp.f, sp.recv = f, recv
+						} else if q, isQ := stripConvs(a).(*ssa.Parameter); isQ {
+							sp.recv = q
+						} else {
+							sp.why = describeVal(a) + " is passed to " + qname(sc) + ", which prints it as the size"
+						}
+					}
+				}
+				out = append(out, sp)
 			}
 		}
 	}
-	if !found {
-		c.OK("R10.4", cons, p.Pos(fn.Pos()), "prints no size (nothing to compare)")
+	if depth == 0 {
+		for i := range out {
+			if out[i].why == "" && out[i].f == nil {
+				out[i].why = "a size that reaches the renderer from outside (" + describeVal(out[i].recv) + ")"
+			}
+		}
 	}
+	return out
 }
 
 // writesBufferDirectly: the function stores, copies or PutUints into its own
@@ -1261,7 +1340,19 @@ func checkFrameArithmetic(p *Prog, c *Check) {
 		var will *packetState
 		bad := ""
 		n := 0
-		for _, spec := range p.stateSpecs(tn) {
+		specs := p.stateSpecs(tn)
+		if p.Method(tn, "SetQoS") != nil {
+			// C10's domain includes malformed but constructible packets: every state once more with QoS 3
+			for _, sp := range append([]stateSpec(nil), specs...) {
+				if sp.bias > 0 {
+					continue
+				}
+				sp.name += ", QoS 3"
+				sp.qos = 3
+				specs = append(specs, sp)
+			}
+		}
+		for _, spec := range specs {
 			if spec.will == 1 && will == nil {
 				will, _ = p.willState()
 			}
@@ -1336,7 +1427,37 @@ func lengthPrefixFindings(p *Prog, topLevel map[*ssa.Function]bool) []guardFindi
 			continue
 		}
 		buf, _, ems, dry := emissionsOf(p, fn)
+		// a packet encoder always carries one length prefix, the remaining length (its second emission): when
+		// that is not built from dry runs inside the function the rule below would have nothing to look at —
+		// it is then decided by linear accounting, is the constant 0 with nothing after it, or is undecided
+		topUndecided := func() {
+			cons := qname(fn) + "#length-prefixes"
+			pos := p.Pos(fn.Pos())
+			if len(ems) == 2 {
+				if len(ems[1].call.Call.Args) > 0 {
+					if k, isC := constInt(stripConvs(ems[1].call.Call.Args[0])); isC && k == 0 {
+						out = append(out, guardFinding{cons: cons, pos: pos, ok: true, how: "remaining length is the constant 0 and nothing is emitted after it"})
+						return
+					}
+				}
+			}
+			if ar := p.fillAccounting(fn, true); ar.applicable && ar.prefixes > 0 && ar.prefixOK {
+				out = append(out, guardFinding{cons: cons, pos: pos, ok: true, how: fmt.Sprintf("%d length prefix(es), %d feasible path(s): by linear accounting each prefix equals the total width of the emissions it covers", ar.prefixes, ar.paths)})
+				return
+			} else if ar.applicable && ar.prefixes > 0 && ar.prefixWhy != "" {
+				out = append(out, guardFinding{cons: cons, pos: pos, unk: true, how: "the remaining length is not a sum of dry runs of what follows it, and linear accounting does not settle it: " + ar.prefixWhy})
+				return
+			}
+			what := "nothing"
+			if len(ems) > 1 && len(ems[1].call.Call.Args) > 0 {
+				what = describeVal(ems[1].call.Call.Args[0])
+			}
+			out = append(out, guardFinding{cons: cons, pos: pos, unk: true, how: "the remaining length of this packet encoder (" + what + ") is not computed from dry runs of what is emitted after it inside the encoder: that it equals the bytes that follow is not decided for all packet states"})
+		}
 		if buf == nil || len(ems) == 0 || len(dry) == 0 {
+			if topLevel[fn] && buf != nil && len(ems) > 0 {
+				topUndecided()
+			}
 			continue
 		}
 		isDry := map[*ssa.Call]bool{}
@@ -1377,6 +1498,9 @@ func lengthPrefixFindings(p *Prog, topLevel map[*ssa.Function]bool) []guardFindi
 			}
 		}
 		if np == 0 {
+			if topLevel[fn] {
+				topUndecided()
+			}
 			continue
 		}
 		cons := qname(fn) + "#length-prefixes"
